@@ -163,6 +163,7 @@ thread_local! {
     static CLASS_SINK: RefCell<Vec<String>> = const { RefCell::new(Vec::new()) };
     static LAST_PANIC: RefCell<Option<String>> = const { RefCell::new(None) };
     static QUIET_PANICS: Cell<bool> = const { Cell::new(true) };
+    static CATCH_DEPTH: Cell<u32> = const { Cell::new(0) };
 }
 
 /// Labels the case being checked (shows up in the evidence distribution).
@@ -189,7 +190,8 @@ pub fn install_panic_hook() {
                 *p = Some(format!("{msg} @ {loc}"));
             }
         });
-        if !QUIET_PANICS.try_with(|q| q.get()).unwrap_or(true) {
+        let expected = CATCH_DEPTH.try_with(|d| d.get() > 0).unwrap_or(false) || msg.contains("scripted panic") || msg.contains("task panic") || msg.contains("payload destructor panics") || msg.contains("runaway run abandoned");
+        if !QUIET_PANICS.try_with(|q| q.get()).unwrap_or(true) || !expected {
             default(info);
         }
     }));
@@ -202,7 +204,10 @@ pub fn set_quiet_panics(quiet: bool) {
 /// Runs `f`, converting a panic into `Err(message @ location)`.
 pub fn catch<R>(f: impl FnOnce() -> R) -> Result<R, String> {
     LAST_PANIC.with(|p| *p.borrow_mut() = None);
-    match panic::catch_unwind(AssertUnwindSafe(f)) {
+    CATCH_DEPTH.with(|d| d.set(d.get() + 1));
+    let caught = panic::catch_unwind(AssertUnwindSafe(f));
+    CATCH_DEPTH.with(|d| d.set(d.get().saturating_sub(1)));
+    match caught {
         Ok(r) => Ok(r),
         Err(payload) => {
             let from_hook = LAST_PANIC.with(|p| p.borrow_mut().take());
